@@ -39,7 +39,7 @@ fn new_session(r: &mut StdRng, out: &mut Out, o: ZoneOpts, multi_class: bool, nk
     server.set_edns_udp_payload_size(payload).unwrap();
     let mut keys = Vec::new();
     let mut map: TsigKeyMap = HashMap::new();
-    let key_names = ["key1.example.", "key2.test.", "k.", "a-rather-long-key-name.with.several.labels.example."];
+    let key_names = ["tsig.elsewhere.", "key1.example.", "k.", "key2.test.", "a-rather-long-key-name.with.several.labels.example."];
     for i in 0..nkeys {
         let alg = if r.gen_bool(0.5) { Alg::Sha1 } else { Alg::Sha256 };
         let secret: Vec<u8> = (0..r.gen_range(1..65)).map(|_| r.gen()).collect();
@@ -295,15 +295,64 @@ fn edns(r: &mut StdRng, out: &mut Out, ncat: usize, n: usize) {
 }
 
 /// C10: signed requests and broken variants.
+/// A hand-made session for signed responses that are emptied after names were written into RDATA: the apex of
+/// `prov.test.` has NS, SOA, an MX whose target lies under the same foreign domain as the TSIG key's name, and a TXT
+/// RRset that overflows 512 octets; ANY / TXT / MX queries over UDP without EDNS, correctly signed.
+fn crafted_tsig_session(r: &mut StdRng, out: &mut Out) {
+    use quandary::db::catalog::Entry;
+    use quandary::db::zone::GluePolicy;
+    let apex = "prov.test.";
+    let mut soa = w("ns.prov.test.");
+    soa.extend(w("admin.prov.test."));
+    for v in [1u32, 2, 3, 4, 60] { soa.extend_from_slice(&v.to_be_bytes()); }
+    let mut recs = vec![
+        Rec { owner: apex.into(), ty: 6, ttl: 60, rdata: soa },
+        Rec { owner: apex.into(), ty: 2, ttl: 60, rdata: w("ns.prov.test.") },
+        Rec { owner: apex.into(), ty: 15, ttl: 60, rdata: { let mut v = vec![0, 10]; v.extend(w("mail.elsewhere.")); v } },
+        Rec { owner: "alias.prov.test.".into(), ty: 5, ttl: 60, rdata: w("big.cdn.elsewhere.") },
+    ];
+    for i in 0..3u8 {
+        let mut rd = vec![200u8];
+        rd.extend(std::iter::repeat(b'p' + i).take(200));
+        recs.push(Rec { owner: apex.into(), ty: 16, ttl: 60, rdata: rd });
+    }
+    let (zone, jrecs, _) = build_zone(apex, 1, &recs, GluePolicy::Narrow);
+    let mut cat = Cat::new();
+    cat.insert(Entry::Loaded(Arc::new(zone), ()));
+    let mut server = Server::new(Arc::new(cat));
+    server.set_edns_udp_payload_size(1232).unwrap();
+    let keys = [("tsig.elsewhere.", Alg::Sha256, b"crafted-secret-1".to_vec()), ("key.cdn.elsewhere.", Alg::Sha1, b"crafted-secret-2".to_vec())];
+    let mut map: TsigKeyMap = HashMap::new();
+    for (name, alg, secret) in &keys {
+        map.insert(nm(name), (if *alg == Alg::Sha1 { Algorithm::HmacSha1 } else { Algorithm::HmacSha256 }, secret.clone().into_boxed_slice()));
+    }
+    server.set_tsig_keys(Arc::new(map));
+    let jkeys: Vec<Value> = keys.iter().map(|(n, a, s)| json!({"name": w(n), "alg": a.tag(), "secret": s})).collect();
+    out.emit(json!({"ev": "Cfg", "catalog": [{"name": w(apex), "class": 1, "state": "loaded", "records": jrecs}], "payload": 1232, "keys": jkeys, "rrl": false, "strict": true}));
+    for (name, alg, secret) in &keys {
+        for (qn, ty) in [("prov.test.", 255u16), ("prov.test.", 16), ("prov.test.", 15), ("alias.prov.test.", 1), ("prov.test.", 2)] {
+            for t in [Transport::Udp, Transport::Tcp] {
+                let mut m = base_query(r, qn, ty, 1);
+                let p = TsigParams { key_name: w(name), alg_name: w(alg.name()), time: unix_now(), fudge: 300,
+                                     orig_id: u16::from_be_bytes([m[0], m[1]]), error: 0, other: vec![], class: 255, ttl: 0 };
+                tsig_sign(&mut m, &p, *alg, secret, None);
+                out.emit(handle(&server, &m, t, SRC));
+            }
+        }
+    }
+}
+
 fn tsig(r: &mut StdRng, out: &mut Out, ncat: usize, n: usize) {
-    let o = ZoneOpts { big: false, weird: false, chains: false };
-    for _ in 0..ncat {
+    crafted_tsig_session(r, out);
+    for ci in 0..ncat {
+        // every other session (the first included) has fat RRsets and delegations: signed responses that are truncated / emptied
+        let o = ZoneOpts { big: ci % 2 == 0, weird: false, chains: false };
         let nk = r.gen_range(1..4);
-        let s = new_session(r, out, o, false, nk, false, &[1232, 512]);
+        let s = new_session(r, out, o, false, nk, false, if ci % 2 == 0 { &[1232] } else { &[1232, 512] });
         let qns = query_names(&s);
         for _ in 0..n {
             let qn = qns.choose(r).unwrap();
-            let mut m = base_query_t(r, qn, &[1u16, 2, 16, 6], 1);
+            let mut m = base_query_t(r, qn, &[1u16, 2, 16, 6, 255, 15], 1);
             if r.gen_bool(0.4) { push_additional(&mut m, &opt_rr(1232, 0, &[0], &[])); }
             let k = s.keys.choose(r).unwrap();
             // one defect, or (35%) two different defects at once: the order in which the server applies its checks
@@ -330,12 +379,12 @@ fn tsig(r: &mut StdRng, out: &mut Out, ncat: usize, n: usize) {
                 5 => { mac_len = Some(r.gen_range(0..=alg.out_len() + 2)); }
                 6 => {
                     let d = *[298i64, 299, 300, 301, 302, 1000, -299, -300, -301, -5000, 1_000_000, -1_000_000].choose(r).unwrap();
-                    p.time = (p.time as i64 + d) as u64;
+                    p.time = (p.time as i64 + d).max(0) as u64;
                 }
                 7 => { tamper = Some(r.gen_range(0..m.len())); }
                 8 => { if r.gen_bool(0.5) { p.class = *[1u16, 254].choose(r).unwrap(); } else { p.ttl = *[5u32, 0x8000_0000, 1].choose(r).unwrap(); } }
                 9 => { extra_after = true; }
-                10 => { p.fudge = *[0u16, 1, 2].choose(r).unwrap(); p.time -= r.gen_range(0..3); }
+                10 => { p.fudge = *[0u16, 1, 2].choose(r).unwrap(); p.time = p.time.saturating_sub(r.gen_range(0..3)); }
                 11 => { p.other = (0..r.gen_range(1..8)).map(|_| r.gen()).collect(); }
                 12 => { p.time = *[0u64, 1 << 31, (1 << 32) + 5, (1 << 47) + 1].choose(r).unwrap(); }
                 13 => { p.error = *[16u16, 17, 18, 1].choose(r).unwrap(); }
@@ -351,6 +400,19 @@ fn tsig(r: &mut StdRng, out: &mut Out, ncat: usize, n: usize) {
             rec["variant"] = json!(variants);
             out.emit(rec);
         }
+        // correctly signed queries whose answer overflows after records with names in their RDATA were written
+        // (apex ANY / NS / MX of the fat zone over UDP without EDNS): the emptied, signed TC response
+        if o.big {
+            for k in &s.keys {
+                for (qn, ty) in [("example.test.", 255u16), ("example.test.", 255), ("fat.example.test.", 2), ("x.fat.example.test.", 1), ("example.test.", 16), ("x.manyns.example.test.", 1), ("manyns.example.test.", 2)] {
+                    let mut m = base_query(r, qn, ty, 1);
+                    let p = TsigParams { key_name: w(&k.name), alg_name: w(k.alg.name()), time: unix_now(), fudge: 300,
+                                         orig_id: u16::from_be_bytes([m[0], m[1]]), error: 0, other: vec![], class: 255, ttl: 0 };
+                    tsig_sign(&mut m, &p, k.alg, &k.secret, None);
+                    out.emit(handle(&s.server, &m, Transport::Udp, SRC));
+                }
+            }
+        }
         // TSIG whose error response cannot fit a 512-octet UDP message (maximal key and algorithm names)
         let long = |c: char| -> String { let l: String = std::iter::repeat(c).take(61).collect(); format!("{}.{}.{}.{}.", l, l, l, &l[..57]) };
         for t in [Transport::Udp, Transport::Tcp] {
@@ -364,6 +426,18 @@ fn tsig(r: &mut StdRng, out: &mut Out, ncat: usize, n: usize) {
             let p2 = TsigParams { key_name: w(&long('k')), alg_name: w("hmac-sha256."), time: unix_now(), fudge: 300, orig_id: 7, error: 0, other: vec![], class: 255, ttl: 0 };
             tsig_sign(&mut m2, &p2, Alg::Sha256, b"x", None);
             out.emit(handle(&s.server, &m2, t, SRC));
+        }
+        // OPT + TSIG with maximal names: the advertised payload size swept across the point where the TSIG error
+        // record just fits (header 12 + question 259 + OPT 11 + TSIG 294 = 576)
+        for adv in (548u16..=604).step_by(if r.gen_bool(0.5) { 1 } else { 3 }) {
+            let mut m3 = base_query(r, &long('q'), 1, 1);
+            push_additional(&mut m3, &opt_rr(adv, 0, &[0], &[]));
+            let known_key = r.gen_bool(0.3);
+            let k = &s.keys[0];
+            let p3 = TsigParams { key_name: if known_key { w(&k.name) } else { w(&long('k')) }, alg_name: w(if known_key { k.alg.name() } else { "hmac-sha256." }), time: unix_now(), fudge: 300,
+                                  orig_id: u16::from_be_bytes([m3[0], m3[1]]), error: 0, other: vec![], class: 255, ttl: 0 };
+            tsig_sign(&mut m3, &p3, if known_key { k.alg } else { Alg::Sha256 }, if known_key { &k.secret } else { b"x" }, None);
+            out.emit(handle(&s.server, &m3, Transport::Udp, SRC));
         }
     }
 }
